@@ -18,6 +18,7 @@ Lemma consts_ok :
   (c11_call_iterator_count && c11_call_iterator_sum && c11_call_iterator_mean &&
    c11_call_iterator_min && c11_call_iterator_max && c11_call_iterator_first &&
    c11_call_iterator_last && negb c11_call_iterator_spread && negb c11_call_iterator_median &&
+   negb c11_call_iterator_distinct && negb c11_call_iterator_mode && negb c11_call_iterator_percentile &&
    c11_merge_count_as_sum)%bool = true.
 Proof. reflexivity. Qed.
 
@@ -657,15 +658,21 @@ Definition fin (ft : ftype) (s : stmt) (gp : part) : relem :=
 Lemma agg_pushed ft f l : is_pushed f = true -> agg ft f l = option_map (finalize ft f) (pfold ft f l).
 Proof. destruct f; try discriminate; reflexivity. Qed.
 
+Lemma aggs_pushed ft f desc l :
+  is_pushed f = true ->
+  aggs ft f desc l = match option_map (finalize ft f) (pfold ft f l) with Some x => [x] | None => [] end.
+Proof. intros H. unfold aggs. destruct f; try discriminate; reflexivity. Qed.
+
 Lemma agg_stream_pushed ft s pts :
   is_pushed s.(s_fn) = true -> agg_stream ft s pts = map (fin ft s) (parts_ref ft s pts).
 Proof.
   intros Hp. unfold agg_stream, parts_ref.
   induction (groups s pts) as [|g gl IH]; [reflexivity|].
   cbn [flat_map]. rewrite map_app. f_equal; [|exact IH].
-  rewrite (agg_pushed ft _ _ Hp).
-  destruct (pfold ft (s_fn s) (members s g pts)) as [p|]; [|reflexivity].
-  cbn [option_map map]. unfold fin. cbn [snd fst]. destruct (finalize ft (s_fn s) p). reflexivity.
+  rewrite (aggs_pushed ft _ _ _ Hp).
+  destruct (pfold ft (s_fn s) (members s g pts)) as [p|]; cbn [option_map map].
+  - unfold fin, emit. cbn [snd fst]. destruct (finalize ft (s_fn s) p). destruct (s_desc s); reflexivity.
+  - destruct (s_desc s); reflexivity.
 Qed.
 
 Definition grp_leb_total := leb_of_total grp_cmp grp_cmp_total.
@@ -906,11 +913,12 @@ Proof.
   rewrite (isort_unique Z.leb Zleb_total Zleb_trans Zleb_antisym _ _ H). reflexivity.
 Qed.
 
-Definition is_slice_fn (f : fn) : bool := match f with FSpread | FMedian => true | _ => false end.
+Definition is_slice_fn (f : fn) : bool :=
+  match f with FSpread | FMedian | FDistinct | FMode | FPercentile _ | FCountDistinct => true | _ => false end.
 
-Lemma agg_perm ft f l l' : is_slice_fn f = true -> Permutation l l' -> agg ft f l = agg ft f l'.
+Lemma agg_perm ft f l l' : is_slice_fn f = true -> is_sorted_fn f = false -> Permutation l l' -> agg ft f l = agg ft f l'.
 Proof.
-  intros Hf Hp. destruct f; try discriminate; unfold agg.
+  intros Hf Hs Hp. destruct f; try discriminate; unfold agg.
   - (* spread *)
     destruct l as [|p l0]; [apply Permutation_nil in Hp; subst; reflexivity|].
     destruct l' as [|p' l0']; [apply Permutation_sym, Permutation_nil in Hp; discriminate|].
@@ -930,6 +938,76 @@ Qed.
 
 Lemma agg_nil ft f : agg ft f [] = None.
 Proof. destruct f; reflexivity. Qed.
+
+(* mode, percentile, distinct and count(distinct) are functions of the group's points sorted by
+   (value, time): a total order, so the sorted list is the same for every arrival order *)
+Lemma vt_cmp_total : total_cmp vt_cmp.
+Proof. apply lexc_total; apply Zcompare_total. Qed.
+
+Lemma vsort_perm l l' : Permutation l l' -> vsort l = vsort l'.
+Proof.
+  intros H. unfold vsort.
+  apply (isort_unique vt_leb (leb_of_total vt_cmp vt_cmp_total) (leb_of_trans vt_cmp vt_cmp_total)
+           (leb_of_antisym vt_cmp vt_cmp_total)).
+  apply Permutation_map. exact H.
+Qed.
+
+(* every aggregate evaluated above the last merge depends only on the multiset of the group's
+   points, not on the order in which the layout delivers them *)
+Lemma aggs_perm ft f desc l l' :
+  is_slice_fn f = true -> Permutation l l' -> aggs ft f desc l = aggs ft f desc l'.
+Proof.
+  intros Hf Hp. unfold aggs. destruct (is_sorted_fn f) eqn:Es.
+  - rewrite (vsort_perm l l' Hp). reflexivity.
+  - rewrite (agg_perm ft f l l' Hf Es Hp). reflexivity.
+Qed.
+
+(* the point percentile() reports is one of the group's points *)
+Lemma percentile_in_group p2 l p : percentile_sorted p2 (vsort l) = Some p -> In (snd p, fst p) l.
+Proof.
+  unfold percentile_sorted. intros H.
+  match type of H with (if ?c then _ else _) = _ => destruct c; [discriminate|] end.
+  apply nth_error_In in H. unfold vsort in H.
+  eapply Permutation_in in H; [|apply isort_perm].
+  apply in_map_iff in H. destruct H as [q [Hq Hin]]. subst p. destruct q as [t v]. exact Hin.
+Qed.
+
+(* the value mode() reports (numbers, strings) is one of the group's values *)
+Lemma mode_step_in (S : list Z) st p :
+  In (m_mostv st) S -> In (fst p) S -> In (m_mostv (mode_step st p)) S.
+Proof.
+  intros H1 H2. unfold mode_step.
+  match goal with |- context [if ?c then mkM _ _ _ _ _ _ else _] => destruct c end; cbn [m_mostv]; assumption.
+Qed.
+
+Lemma mode_fold_in (S : list Z) sl st :
+  In (m_mostv st) S -> (forall p, In p sl -> In (fst p) S) -> In (m_mostv (fold_left mode_step sl st)) S.
+Proof.
+  revert st. induction sl as [|p sl IH]; intros st H1 H2; [exact H1|].
+  cbn [fold_left]. apply IH.
+  - apply mode_step_in; [exact H1|apply H2; left; reflexivity].
+  - intros q Hq. apply H2. right. exact Hq.
+Qed.
+
+Lemma mode_in_group l v : mode_scan (vsort l) = Some v -> In v (map snd l).
+Proof.
+  unfold mode_scan. destruct (vsort l) as [|a0 sl] eqn:E; [discriminate|]. intros H. inversion H; subst v; clear H.
+  assert (Hall : forall p, In p (a0 :: sl) -> In (fst p) (map snd l)).
+  { intros p Hp. rewrite <- E in Hp. unfold vsort in Hp.
+    eapply Permutation_in in Hp; [|apply isort_perm].
+    apply in_map_iff in Hp. destruct Hp as [q [<- Hq]]. cbn [swap fst]. apply in_map. exact Hq. }
+  apply (mode_fold_in (map snd l) (a0 :: sl) (mkM 0 (fst a0) (snd a0) 0 (fst a0) (snd a0))); [|exact Hall].
+  exact (Hall a0 (or_introl eq_refl)).
+Qed.
+
+Lemma flat_map_rev {A B} (F : A -> list B) l : flat_map F (rev l) = rev (flat_map (fun x => rev (F x)) l).
+Proof.
+  induction l as [|x l IH]; [reflexivity|].
+  cbn [rev flat_map]. rewrite flat_map_app, IH, rev_app_distr, rev_involutive. cbn [flat_map].
+  rewrite app_nil_r. reflexivity.
+Qed.
+
+Definition emitL (s : stmt) (ga : grp * list (option Z * rval)) : list relem := map (emit s (fst ga)) (snd ga).
 
 Lemma flat_map_rev_small {A B} (F : A -> list B) l :
   (forall x, (length (F x) <= 1)%nat) -> flat_map F (rev l) = rev (flat_map F l).
@@ -972,39 +1050,40 @@ Proof.
   intros Hiv Hf Hoff Hperm.
   set (pts := filter (sel s) data).
   set (X := esort s (selems s (layout_points L))).
-  set (phi := fun gl : grp * list tv => (fst gl, agg ft (s_fn s) (snd gl))).
-  assert (Hm : model_stream ft s L = flat_map (emit1 s) (map phi (slices s X))).
+  set (phi := fun gl : grp * list tv => (fst gl, aggs ft (s_fn s) (s_desc s) (snd gl))).
+  set (R := map (fun g => (g, aggs ft (s_fn s) (s_desc s) (members s g pts))) (groups s pts)).
+  assert (Hm : model_stream ft s L = flat_map (emitL s) (map phi (slices s X))).
   { unfold model_stream. rewrite (layout_raw_nolimit false s L Hoff (or_introl eq_refl)). fold X.
     rewrite flat_map_map. destruct (s_fn s) eqn:Ef; try discriminate; reflexivity. }
-  assert (Hr : ref_stream ft s pts = flat_map (emit1 s) (map (fun g => (g, agg ft (s_fn s) (members s g pts))) (groups s pts))).
-  { unfold ref_stream, agg_stream. rewrite flat_map_map. destruct (s_fn s) eqn:Ef; try discriminate; reflexivity. }
+  assert (Hr : ref_stream ft s pts = flat_map (fun ga => dirl (s_desc s) (emitL s ga)) R).
+  { unfold ref_stream, agg_stream, R. rewrite flat_map_map. destruct (s_fn s) eqn:Ef; try discriminate; reflexivity. }
   rewrite Hm, Hr.
-  assert (Heq : map phi (slices s X) = dirl (s_desc s) (map (fun g => (g, agg ft (s_fn s) (members s g pts))) (groups s pts))).
+  assert (Heq : map phi (slices s X) = dirl (s_desc s) R).
   { destruct (slices_props s X Hiv (esort_sorted s _)) as [T1 [T2 T3]].
     apply (keysorted_eq (dir (s_desc s) grp_leb) (dir_antisym grp_cmp grp_cmp_total (s_desc s))).
     - eapply sorted_map; [|exact T1]. intros a b _ _ H. exact H.
-    - unfold dirl. set (R := map (fun g => (g, agg ft (s_fn s) (members s g pts))) (groups s pts)).
+    - unfold dirl.
       assert (HR : sorted (pleb grp_leb) R).
       { unfold R. eapply sorted_map; [|apply (groups_sorted s pts)]. intros a b _ _ H. exact H. }
       destruct (s_desc s); [apply (sorted_rev (pleb grp_leb)); exact HR|exact HR].
     - rewrite map_map. cbn [fst]. exact T2.
-    - unfold dirl. destruct (s_desc s); [rewrite map_rev; apply NoDup_rev|];
+    - unfold dirl, R. destruct (s_desc s); [rewrite map_rev; apply NoDup_rev|];
         rewrite map_map; cbn [fst]; rewrite map_id; apply groups_nodup.
     - intros [g a].
-      assert (Hdir : forall l : list (grp * option (option Z * rval)), In (g, a) (dirl (s_desc s) l) <-> In (g, a) l).
+      assert (Hdir : forall l : list (grp * list (option Z * rval)), In (g, a) (dirl (s_desc s) l) <-> In (g, a) l).
       { intros l. unfold dirl. destruct (s_desc s); [symmetry; apply in_rev|reflexivity]. }
-      rewrite Hdir. rewrite !in_map_iff. split.
+      rewrite Hdir. unfold R. rewrite !in_map_iff. split.
       + intros [[g' vs] [Hphi Hin]]. unfold phi in Hphi. cbn [fst snd] in Hphi. inversion Hphi; subst g' a.
         apply T3 in Hin. destruct Hin as [Hne ->].
         pose proof (slice_members_perm s g L data Hperm) as Hsp. fold X pts in Hsp.
         exists g. split.
-        * f_equal. symmetry. apply agg_perm; [exact Hf|exact Hsp].
+        * f_equal. symmetry. apply aggs_perm; [exact Hf|exact Hsp].
         * apply members_nonempty. intros Hnil. rewrite Hnil in Hsp.
           apply Permutation_sym, Permutation_nil in Hsp. contradiction.
       + intros [g' [Hg Hin]]. inversion Hg; subst g' a.
         pose proof (slice_members_perm s g L data Hperm) as Hsp. fold X pts in Hsp.
         exists (g, slice_ref s g X). split.
-        * unfold phi. cbn [fst snd]. f_equal. apply agg_perm; [exact Hf|exact Hsp].
+        * unfold phi. cbn [fst snd]. f_equal. apply aggs_perm; [exact Hf|exact Hsp].
         * apply T3. split; [|reflexivity]. intros Hnil. rewrite Hnil in Hsp.
           apply Permutation_nil in Hsp.
           apply groups_in in Hin. destruct Hin as [p [Hp Hgp]].
@@ -1013,7 +1092,7 @@ Proof.
             apply grp_eqb_eq. exact Hgp. }
           rewrite Hsp in Hmem. contradiction. }
   rewrite Heq. unfold dirl. destruct (s_desc s); [|reflexivity].
-  apply flat_map_rev_small. apply emit1_small.
+  apply flat_map_rev.
 Qed.
 
 (* ---------- raw SELECT with LIMIT: the limit pushed down per shard and tag set is sound ---------- *)
